@@ -26,7 +26,7 @@ func (c hcase) gallina() string {
 	outs := make([]string, len(c.ops))
 	for i, o := range c.ops {
 		switch {
-		case o.Kind == "AddTypes":
+		case o.Kind == "AddTypes" || o.Kind == "Declare":
 			ops[i] = c.adds[i]
 			outs[i] = c.outs[i]
 		case strings.HasPrefix(c.outs[i], "RNew "):
@@ -63,6 +63,9 @@ func runHistory(c px.Context, ops []opT) (hc hcase, bad int, want string) {
 		if o.Kind == "AddTypes" {
 			hc.adds[i] = w.lastAddGallina(hc.ml[i])
 		}
+		if o.Kind == "Declare" {
+			hc.adds[i] = declareGallina(o, hc.ml[i])
+		}
 		// (the numbers of the loaders as they were before the operation: a context holds a loader that existed then)
 		if o.Kind == "NewDep" {
 			hc.ctx = append(hc.ctx, 0)
@@ -78,6 +81,8 @@ func runHistory(c px.Context, ops []opT) (hc hcase, bad int, want string) {
 		var exp string
 		if o.Kind == "AddTypes" {
 			exp = r.applyAdd(o, w.lastAdd)
+		} else if o.Kind == "Declare" {
+			exp = r.applyDeclare(o)
 		} else if o.L >= len(r.nodes) && o.Kind != "NewDep" {
 			exp = "RBadLoader"
 		} else {
@@ -127,7 +132,7 @@ func nontrivial(hc hcase) bool {
 	for i, o := range hc.ops {
 		out := hc.outs[i]
 		switch o.Kind {
-		case "AddTypes":
+		case "AddTypes", "Declare":
 			if strings.HasPrefix(out, "XA (AErr") {
 				return true
 			}
@@ -197,18 +202,27 @@ func main() {
 	res := lib.NewResult("C12")
 	res.Rule = "histories of construct/define/load/load-entry/get-entry/has/discover operations and px.AddTypes of freshly parsed type sets " +
 		"(nested sets, object members; also sets that are rejected while their members are resolved) and object types over loader trees " +
-		"(static or fresh root, parented, forked, type-set loaders), every loader with a context of its own that lives as long as the history: corpus, " +
-		"bounded-exhaustive over 9 tree shapes, seeded random to length 50; a history is non-trivial when it contains a redefinition " +
-		"(rejected, or an equal-value no-op), a px.AddTypes that ends with a reported error, or a lookup that misses and later succeeds " +
-		"through the same loader; distinct = distinct operation sequences"
+		"(static or fresh root, parented, forked, type-set loaders), every loader with a context of its own that lives as long as the history, " +
+		"and declarations (px.RegisterResolvableType of alias types, bound by px.ResolveResolvables with the loader's context): corpus, " +
+		"bounded-exhaustive over 10 tree shapes, seeded random to length 50; a history is non-trivial when it contains a redefinition " +
+		"(rejected, or an equal-value no-op), a px.AddTypes or a binding of declarations that ends with a reported error, or a lookup that misses and later succeeds " +
+		"through the same loader; distinct = distinct operation sequences; plus the scenarios of the declaration route at the public entry points " +
+		"(binder x kind of declaration x earlier event x letter case x equal/different value; non-trivial when the declaration is not accepted)"
 	rng := lib.NewRng(cfg.Seed)
 	if pf := os.Getenv("C12_PROF"); pf != "" {
 		f, _ := os.Create(pf)
 		_ = pprof.StartCPUProfile(f)
 		defer pprof.StopCPUProfile()
 	}
+	// the declaration route at the public entry points (pcore.Do, pcore.RootContext; decl.go), outside every context
+	if cfg.Replay != "" {
+		replayDeclScenarios(res, cfg.Replay)
+	} else {
+		declScenarios(res)
+	}
 	pcore.Do(func(c px.Context) {
 		setupUniverse(c)
+		checkAliasClasses()
 		setupAddDecls(c)
 		r := &runner{cfg: cfg, res: res, c: c}
 		if cfg.Replay != "" {
